@@ -452,7 +452,7 @@ type c06Flags struct {
 	wordClassAuto                                  bool  // an auto-mode pattern with \w and no ASCII upper-case letter
 	invalid                                        error // a pattern the standard library does not compile
 	autoUpper, autoLower                           bool  // auto-mode patterns with / without upper-case letters
-	autoRepCaps bool // an auto-mode pattern whose upper-case letters are all under * + ? {n,m}
+	autoRepCaps                                    bool  // an auto-mode pattern whose upper-case letters are all under * + ? {n,m}
 }
 
 // c06CapsOnlyRepeated reports (for the evidence labels only) that every
